@@ -548,6 +548,67 @@ def _(nq):
     st.measure_quantum_vector = measure_quantum_vector
 
 
+# =============================================================================================== round 10 (DESIGN §8.8)
+def _staged_multiply(nq, per_thread):
+    import threading
+    cl = nq.sim.clifford
+    orig = cl.clifford_multiply
+    shared = {}
+    tl = threading.local()
+
+    def clifford_multiply(rx, Sx, ry, Sy):
+        n2 = rx.shape[0]
+        store = tl.__dict__ if per_thread else shared
+        buf = store.get(n2)
+        if buf is None:
+            buf = store[n2] = np.zeros((n2, n2), dtype=np.uint8)
+        buf[...] = Sy  # operand staged in a per-register-size work array
+        return orig(rx, Sx, ry, buf)  # numqi code runs here: another caller thread may be scheduled before buf is read
+    _replace_everywhere(orig, clifford_multiply)
+
+
+@mutant('m07_shared_work_array_threads', 'C07', True, 'clifford_multiply stages an operand in a module-level per-size work array: exact single-threaded, wrong when two caller threads with their own circuits interleave')
+def _(nq):
+    _staged_multiply(nq, per_thread=False)
+
+
+@mutant('n07_thread_local_work_array', 'C07', False, 'negative control: the same staging in a thread-local work array')
+def _(nq):
+    _staged_multiply(nq, per_thread=True)
+
+
+def _shift_variant(nq, refuse_cleanly):
+    ci = nq.sim.circuit
+
+    def shift_qubit_index_(self, delta):
+        if delta != 0:
+            if refuse_cleanly:
+                ids = [id(g) for g, _ in self.gate_index_list if g.kind == 'measure']
+                assert len(ids) == len(set(ids)), 'a measure gate shared between positions cannot be shifted'
+            for ind0 in range(len(self.gate_index_list)):
+                gate_i, index_i = self.gate_index_list[ind0]
+                if gate_i.kind in ci.CANONICAL_GATE_KIND:
+                    if gate_i.kind == 'unitary':
+                        self.gate_index_list[ind0] = gate_i, tuple(x + delta for x in index_i)
+                    elif gate_i.kind == 'control':
+                        self.gate_index_list[ind0] = gate_i, ({(x + delta) for x in index_i[0]}, tuple((x + delta) for x in index_i[1]))
+                    elif gate_i.kind == 'measure':
+                        tmp0 = tuple(x + delta for x in gate_i.index)
+                        self.gate_index_list[ind0] = gate_i, tmp0
+                        gate_i.index = tmp0
+    ci.Circuit.shift_qubit_index_ = shift_qubit_index_
+
+
+@mutant('m11_shared_gate_shifted_k_times', 'C11', True, 'shift_qubit_index_ accepts a MeasureGate object that occurs k times and shifts it k*delta')
+def _(nq):
+    _shift_variant(nq, refuse_cleanly=False)
+
+
+@mutant('n11_shared_gate_shift_refused_up_front', 'C11', False, 'negative control: shift_qubit_index_ refuses a shared MeasureGate before touching anything')
+def _(nq):
+    _shift_variant(nq, refuse_cleanly=True)
+
+
 def apply_from_env(nq):
     import os
     name = os.environ.get('NUMQI_VERIF_MUTANT')
